@@ -53,7 +53,16 @@ heterogeneous batches raises a shape error when the largest molecule converges f
 raises in `Energy.forward`; RPA with `cis_amp` reuse raises a shape error (`rpa.py:60`); the documented key
 `cis_tolerance` is ignored (the code reads `tolerance`); the KSA kernel uses the per-spin response without
 the factor 2 (source comment "$$$ multiply by 2 ???"), which slows but does not destabilise the update;
-after a dissociating replica's SCF fails in a CIS batch the next step raises in `makeA_pi_batched`.
+after a dissociating replica's SCF fails in a CIS batch the next step raises in `makeA_pi_batched`;
+`run_from_checkpoint` has no entry for the `XL_ESMD` engine (resume raises `Unknown MD type`); the accessors
+`Electronic_Structure.get_force/get_dm/get_Hf/...` read attributes that are never assigned (AttributeError);
+`all_forces` and the state-dipole arrays of `do_all_forces` are allocated with the default dtype, not the
+molecule's; `hop_log` is not stored in the checkpoint, so the final printed hop summary of a resumed run lists
+only the hops after the resume (no hop occurred in any affordable kill/resume run, so this is from code reading).
+An audit of every published output against what the checks read (`tools/AUDIT_outputs.md`) produced the
+`fixed:` rows for `Electronic_Structure.charge`, `all_forces[:,0]`, the HDF5 `transition_density_matrices` and
+`mo/` streams and the hop-log step labels above; outputs still read by no check are listed there (XL_ESMD engine,
+stdout reports and timings, geomeTRIC trajectory files).
 
 ''' % (len(rows), "\n".join(rows), len(opens), "\n".join(opens))
 s = s[:i] + new + s[j:]
